@@ -189,7 +189,7 @@ XLATE = {
  'C05': "Translated code (Tie/C05): (*X25519Recipient).Wrap, (*ScryptRecipient).Wrap and .WrapWithLabels are translated from x25519.go / scrypt.go on every run (curve25519.X25519, HKDF-SHA256, scrypt.Key, aeadEncrypt, base64 and crypto/rand-as-a-tape are parameters) and proved to produce, for every key, file key and tape, exactly the stanza of the model whose bytes the theorems above compare with the specification; age.headerMAC and age.streamKey (primitives.go) translated and proved to be HMAC under HKDF(file key, no salt, 'header') of the header without its MAC, and HKDF(file key, nonce, 'payload') (headerMAC_tie, streamKey_tie); the header serialiser translated and proved to write the model's marshal byte for byte (header_marshal_tie); agessh.sshFingerprint translated: the SSH tag is the first four bytes of SHA-256 of the wire form in unpadded base64 (sshFingerprint_tie): stanza type and arguments, HKDF salt = ephemeral share ‖ recipient key and the info label, scrypt salt = label ‖ 16 random bytes with N = 2^logN, r = 8, p = 1, the work factor in decimal, one 16-byte random label in hex, and the order in which randomness is drawn (x25519_wrap_tie, scrypt_wrap_tie, scrypt_wrapWithLabels_tie); the SSH stanzas of agessh/agessh.go likewise (sshEd_wrap_tie: tag, tweak = HKDF(no secret, wire form, label), tweaked secret, salt layout; sshRsa_wrap_tie: tag and OAEP-SHA256 under the label; ssh.PublicKey.Marshal, sshFingerprint and rsa.EncryptOAEP are parameters).",
  'C08': "Translated code (Tie/C08): the de-armoring reader ITSELF — (*armoredReader).Read with its closures getLine and drainTrailing and setErr — is translated from armor/armor.go on every run (unread as a view into the struct's buf, the bufio.Reader as the bytes it will deliver, base64's strict Decode a parameter) and armor_read_tie proves a SIMULATION with the model's reader machine (W = 1024): related states, one Read on each side: same bytes in the caller's buffer, corresponding errors (nil / io.EOF / *armor.Error), related states — so armor_canonical, armor_reader_refines_spec, armor_errors_typed, armor_reader_sticky, armor_error_leaves_no_data are about the reader in the source; len(bytes.TrimSpace(b)) == 0 is PROVED to be the model's white-space pattern set (allSpace_eq, all 25 White_Space code points, invalid UTF-8 included); (*WrappedBase64Encoder).writeWrapped, the 64-column wrapper under the armor writer, is translated and proved to emit wrapCols in one destination write (writeWrapped_tie). The armor WRITER too: (*armoredWriter).Write and .Close translated (destination and wrapped base64 encoder abstract state) and proved, for every sequence of writes incl. none followed by Close, to leave armor(input) on a destination that takes every write, a second Close being refused without touching it (armor_writer_tie). encoding/base64's streaming encoder itself (between the armor writer and writeWrapped) is assumed (ArmorWEnv) and exercised by the correspondence.",
  'C15': "Translated code (Tie/C15): lazyOpener (cmd/age/age.go), the mechanism behind 'the -o file is neither created nor modified when decryption is refused at the header', is translated from /repo on every run (os.Create, File.Write, File.Close are parameters) and proved to be the model's three-state machine: the file is created by the FIRST Write and by nothing else — handed an os.Create that faults when called, a Write on an opened or failed opener still returns normally, Close has no access to it — a failed creation is remembered, Close on an opener that never wrote closes nothing (lazy_write_unopened, lazy_write_opened, lazy_write_failed, lazy_close). decrypt of cmd/age/age.go translated too (errorf/errorWithHint are exit sites): the whole order of effects of age -d as a chain (cli_decrypt_tie), and — the clause of the property — when age.Decrypt refuses, the process exits with status 1 WITHOUT ANY WRITE to the output: out.Write and io.Copy may fault when called, they are not reached (cli_decrypt_refused). main itself (flag handling, the in-use path check, keygen) stays tied by the correspondence through the real binaries.",
- 'C16': "Translated code (Tie/C16): BOTH client state machines — (*Recipient).WrapWithLabels and (*Identity).Unwrap of plugin/client.go: phase 1, the phase-2 read loop with its switch on the stanza type, the labelled break, both defers — are translated from /repo on every run (the process, the stanza reader on its output and the UI are abstract state; openClientConnection, writeStanza, writeStanzaWithBody, Stanza.Marshal, NewStanzaReader, ClientUI.readStanza and ClientUI.handle are parameters: writing appends one stanza to the transcript, reading pops the next message of the plugin's script or reports how it ends, handle is the model's UI.handle) and proved, for EVERY script, UI and ending, to write exactly the model's phase 1 followed by the model's replies, to leave the UI in the model's state and to return the model's result (recipient_client_tie, identity_client_tie) — so the theorems above are about the state machines in the source. writeStanza / writeStanzaWithBody translated on top of the translated Stanza.Marshal: they write the canonical serialisation of the stanza they are given (writeStanza_tie). ClientUI.handle/readStanza themselves and the process stay tied by the correspondence.",
+ 'C16': "Translated code (Tie/C16): BOTH client state machines — (*Recipient).WrapWithLabels and (*Identity).Unwrap of plugin/client.go: phase 1, the phase-2 read loop with its switch on the stanza type, the labelled break, both defers — are translated from /repo on every run (the process, the stanza reader on its output and the UI are abstract state; openClientConnection, writeStanza, writeStanzaWithBody, Stanza.Marshal, NewStanzaReader, ClientUI.readStanza and ClientUI.handle are parameters: writing appends one stanza to the transcript, reading pops the next message of the plugin's script or reports how it ends, handle is the model's UI.handle) and proved, for EVERY script, UI and ending, to write exactly the model's phase 1 followed by the model's replies, to leave the UI in the model's state and to return the model's result (recipient_client_tie, identity_client_tie) — so the theorems above are about the state machines in the source. writeStanza / writeStanzaWithBody translated on top of the translated Stanza.Marshal: they write the canonical serialisation of the stanza they are given (writeStanza_tie). (*ClientUI).handle translated as well, its three callbacks as fields that may be nil: for callbacks without hidden state it is the model's UI.handle — same reply appended for msg / request-secret / request-public / confirm (nil callback or failing callback = fail, bad argument count or base64 = fatal with nothing written), (false, nil) with nothing written for any other command; calling a nil callback is shown unreachable (handle_tie). ClientUI.readStanza and the process stay tied by the correspondence.",
  'C19': "Translated code (Tie/C19): the first part of (*EncryptedSSHIdentity).Unwrap (agessh/encrypted_keys.go: cached-key shortcut, match loop over the stanzas, 'no match' return, call of the passphrase callback) is translated from /repo on every run and proved equal to the model up to that point (encssh_prompt_tie): with a key cached the callback is not touched; with nothing cached it is invoked exactly when the model's scanStanzas finds a stanza of the key's type carrying its tag before a malformed one — handed a callback that FAULTS when called, the translated code still returns normally in every other case (encssh_no_prompt). The rest of the function (key-file parsing, type switch over crypto key types, public-key comparison, assignment of the cache) is outside the translated fragment: correspondence only.",
  'C17': "Translated code (Tie/C17): plugin.validPluginName — the test every construction of a plugin client goes through — is translated from /repo on every run and proved equal to the model for every byte string (invalid UTF-8 included); the parsers/encoders built on it are tied in Tie/C09; the command line's routing, parseRecipient and parseIdentity of cmd/age/parse.go, translated too: for every argument, which constructor it is handed to (cli_parseRecipient_tie, cli_parseIdentity_tie), and handed a plugin constructor that FAULTS when called parseRecipient still returns normally for every argument that is not of the plugin form (cli_native_no_plugin); the client constructors NewRecipient, NewIdentity, NewIdentityWithoutData translated and proved to be the model's (newRecipient_tie, newIdentity_tie, newIdentityWithoutData_tie): every construction goes through the name check and keeps the string it was given; openClientConnection translated up to the exec.Command call (exec_tie): THE command is age-plugin-NAME --age-plugin=PROTOCOL, and for a name containing '/' no command is built at all (the constructor may fault when called).",
 }
